@@ -54,8 +54,14 @@ type FuncAn struct {
 	lenAtomOf      map[*Atom]ssa.Value
 	hoistUntracked string // set by a failed hoist whose call site lacked the fact because of an untracked value
 	memPhis        map[*ssa.BasicBlock][]memPhi
-	capAtomOf      map[*Atom]ssa.Value  // capacity atoms -> the slice value
-	fieldAtomOf    map[*Atom]*ssa.Field // atoms of struct-value fields
+	capAtomOf      map[*Atom]ssa.Value                  // capacity atoms -> the slice value
+	fieldAtomOf    map[*Atom]*ssa.Field                 // atoms of struct-value fields
+	retSnap        map[*ssa.Return]map[string]ssa.Value // return -> locations available there
+	retVer         map[*ssa.Return]map[string]string    // return -> named versions available there
+	postAt         map[*ssa.Call]map[string]types.Type  // call -> locations that got a post version (postfacts.go)
+	loadVer        map[*ssa.UnOp]string                 // representative load -> the named version it reads
+	atomVer        map[*Atom]string                     // atoms of named versions of a location's content -> the name
+	verCalls       map[string]*ssa.Call                 // version name -> the call it was created at
 }
 
 type remRec struct {
